@@ -70,6 +70,7 @@ def run_scripts(pid, rundir, scenarios, vh=VH, shards=16, verbose=False, driver=
     results = core.run_parallel([env_prefix + c for c in cmds], timeout=timeout)
     checked, mism, oracle, errors = 0, [], [], []
     for (rc, out), tp in zip(results, traces):
+        races = re.findall(r"WARNING: DATA RACE\n(.*?)\n==================", out, re.S)
         m = re.search(r"CHECKED (\d+) MISMATCHES (\d+)", out)
         if m:
             checked += int(m.group(1))
@@ -80,7 +81,6 @@ def run_scripts(pid, rundir, scenarios, vh=VH, shards=16, verbose=False, driver=
             for l in read_lines(tp):
                 if l.startswith("X "):
                     oracle.append(l)
-        races = re.findall(r"WARNING: DATA RACE\n(.*?)\n==================", out, re.S)
         for rep in races[:3]:
             frames = [l.strip() for l in rep.splitlines() if "github.com/XiXi-2024/xixi-kv" in l and "()" in l]
             where = "; ".join(dict.fromkeys(frames[:4])) or rep.splitlines()[1].strip()
@@ -408,6 +408,17 @@ REGISTRY = {
                                                dflags="-noevents -skip stat", oracle_props=["C18", "C06", "C02", "C01"]),
         "assumptions": ["after every successful merge the harness decodes the hint file and the rewritten files with the package's own readers and compares them entry by entry (implementation-side oracle), and the digest of the hint entries with the model's hint file; positions and sizes of all keys are compared with the model after the adopting Open (hint path) and after the next Open (scan path)",
                         "hint records are framed and CRC-protected like data records (C11); the varint encoding of a hint record is compared through the byte counts of the hint-file writes and the decoded entries"],
+    },
+    "C19": {
+        "corr": lambda tier, seed: corr_simple("C19", tier, seed, "dtgen", 400, 12000, ["C19", "C02", "C06", "C01"],
+                                               "harness/vh dtgen (commands of all five types on 1-5 keys incl. the empty key, members/fields of 0-3 bytes, values incl. varint-hostile byte runs, strings with ttl 0 / already expired / one hour, deletions and re-creations with another type, wrong-type attempts, restarts with an independently drawn configuration, merges, full dumps of the store) plus corpus/C19; every command runs through datatype.DataTypeService on the real engine and through DataTypeRun.run_cmd on the engine model; reply, the key's stored record (byte for byte) and all I/O events compared; the abstract-type reference (Go, harness/vh/dtops.go) checks every reply of the implementation",
+                                               dflags=""),
+        "assumptions": ["clock readings (time.Now of a command, the version a created key gets, a string's absolute expiry) and the snowflake batch id are inputs of the model, observed from the implementation (version and expiry from the key's stored record, batch id through hook H7)",
+                        "ttl classes: none, already expired when the next command runs (1 ns, -1 h), and not expiring during the run (1 h); the moment of expiry itself is not sampled",
+                        "scores are canonical decimal strings (what strconv.FormatFloat(f,'f',-1,64) prints); -0 and NaN are not generated",
+                        "an empty value and no value are one observation (the engine returns nil for both)",
+                        "commands of another type on a key holding an expired string are not judged by the reference (the layer replies WRONGTYPE; see DESIGN.md)",
+                        "the refinement theorems assume distinct versions for distinct incarnations of a key and that no user key equals an internal element key (both rest on nanosecond clock readings); the sorted-set collision D22, which needs neither, is a known finding"],
     },
     "C07": {
         "corr": lambda tier, seed: corr_crash("C07", tier, seed, ["merge"], 60, 1200, oracle_props=["C07", "C03", "C04"]),
